@@ -64,18 +64,6 @@ Theorem exp_cmp_iterations_le : forall max_n x bound cmp, 0 <= max_n ->
   0 <= iterations (ref_exp_cmp max_n x bound cmp) <= max_n.
 Proof. exact exp_cmp_iterations_proof. Qed.
 
-(* Negative arguments (outside the property's quantifier "x in [0, 1.2] and beyond"; the
-   callers pass x = -sigma*ln(1-f) >= 0): the code keeps the SIGN of x^(n+1) in the error
-   term, so on every other iteration the two thresholds are swapped and the answer is
-   grossly wrong: x = -1, compare = 0.2 < e^-1 gives GT. *)
-Theorem exp_cmp_neg_x_refuted : exists max_n x bound cmp, x < 0 /\
-  (exp (Rabs (IZR x / IZR PREC)) <= IZR bound)%R /\
-  estimation (ref_exp_cmp max_n x bound cmp) = GT /\
-  (IZR cmp / IZR PREC < exp (IZR x / IZR PREC))%R.
-Proof.
-  exists 2, (- PREC), 3, (2 * 10 ^ 33). split; [reflexivity|]. exact exp_cmp_neg_x_refuted_proof.
-Qed.
-
 (* non-vacuity: the hypotheses are satisfiable and all three answers occur *)
 Example exp_cmp_examples :
   estimation (ref_exp_cmp 1000 (5 * 10 ^ 32) 3 (10 ^ 34 + 7 * 10 ^ 33)) = GT /\
